@@ -23,7 +23,7 @@ import tlc  # noqa
 import sdoc as S  # noqa
 
 PROP = "C06"
-PRESENTATIONS = ["sources", "multidoc", "include_list", "includes", "multidoc_inc", "nested", "mixed"]
+PRESENTATIONS = ["sources", "multidoc", "include_list", "includes", "multidoc_inc", "nested", "mixed", "inc_then_doc"]
 ASSUME = ["CPython 3.12.1 / PyYAML of /venv; awesomeyaml imported from AY_REPO (default /repo)",
           "files are written to a fresh temporary directory; symlinks and permissions are not varied",
           "TLC results are for the bounded universes named in coverage.configs"]
@@ -67,6 +67,10 @@ def materialise(root, pres, docs, key=None):
     elif pres == "mixed":
         rest = rel[1:]
         _w(os.path.join(main, "main.yaml"), "---\n" + texts[0] + ("--- !include [" + ", ".join(rest) + "]\n" if rest else ""))
+    elif pres == "inc_then_doc":
+        # an include that expands to several documents FOLLOWED by a document of the including stream itself
+        head = rel[:-1]
+        _w(os.path.join(main, "main.yaml"), ("--- !include [" + ", ".join(head) + "]\n" if head else "") + "---\n" + texts[-1])
     elif pres == "key":
         _w(os.path.join(main, "main.yaml"), S._key_text(key) + ": !include [" + ", ".join(rel) + "]\n")
     elif pres == "key_unsafe":
@@ -350,7 +354,7 @@ def _run(prop, tier, seed, replay, wd):
     shutil.rmtree(os.path.join(E.VERIF, "replays", prop), ignore_errors=True)
 
     # ---- A: every enumerated document sequence in every presentation -------------------
-    cfgs = {"quick": [("C04_DocsL", "C04_RangeL", 2)], "thorough": [("C04_Docs3", "C04_Range3", 2), ("C04_DocsL", "C04_RangeL", 3)]}[tier]
+    cfgs = {"quick": [("C04_DocsL", "C04_RangeL", 2), ("C04_DocsP", "C04_RangeP", 3)], "thorough": [("C04_Docs3", "C04_Range3", 2), ("C04_DocsL", "C04_RangeL", 3)]}[tier]
     bad_hist = []
     lookup_table = None
     replayed = 0
